@@ -8,7 +8,7 @@
 From Coq Require Import ZArith Reals Lia.
 From Flocq Require Import Core.Core IEEE754.Binary.
 From Ais Require Import Model.Base Model.Enums Model.Fields Model.Messages Model.F32Eval Spec.Layouts
-  Proofs.Bits Proofs.Conversions Proofs.FloatBound.
+  Proofs.Bits Proofs.Conversions Proofs.FloatBound Proofs.Encode Proofs.RoundTrip Proofs.Coordinates.
 Local Open Scope N_scope.
 
 (* two's complement of the field's own width, including the most negative value *)
@@ -98,6 +98,24 @@ Theorem C10_integer_exact :
   forall z, (Z.abs z < 2 ^ 24)%Z -> Binary.B2R 24 128 (feval (FOfInt z)) = IZR z.
 Proof. intros z Hz. exact (proj1 (of_Z_exact z Hz)). Qed.
 Print Assumptions C10_integer_exact.
+
+(* through a whole message: any signed longitude / latitude of the field's range (not the not-available code, not
+   zero — zero is exact, [C10_zero_is_exact]), encoded in two's complement in a type 1 position report between
+   arbitrary neighbours and followed by anything, is reported as an expression whose binary32 value is within
+   2^-22 (relative) of raw / 600000: sign extension, layout and rounding analysis composed (Proofs/Coordinates.v) *)
+Theorem C10_coordinates_through_type1 :
+  forall c q rep mmsi st turn spd acc (lon lat : Z) crs hdg sec man spare raim sync comm post,
+    let fs := fields1 rep mmsi st turn spd acc (twos 28 lon) (twos 27 lat) crs hdg sec man spare raim sync comm in
+    in_range fs ->
+    (- 2 ^ 27 <= lon < 2 ^ 27)%Z -> (- 2 ^ 26 <= lat < 2 ^ 26)%Z ->
+    lon <> 108600000%Z -> lat <> 54600000%Z -> lon <> 0%Z -> lat <> 0%Z ->
+    exists m elon elat,
+      parse_bits c q (enc fs ++ post) = Ok (PositionReport m) /\
+      pr_longitude m = Some elon /\ pr_latitude m = Some elat /\
+      (Rabs (Binary.B2R 24 128 (feval elon) - IZR lon / 600000) <= bpow radix2 (-22) * Rabs (IZR lon / 600000))%R /\
+      (Rabs (Binary.B2R 24 128 (feval elat) - IZR lat / 600000) <= bpow radix2 (-22) * Rabs (IZR lat / 600000))%R.
+Proof. exact coordinates_through_type1. Qed.
+Print Assumptions C10_coordinates_through_type1.
 
 (* non-vacuity: -73421920 / 600000 evaluates to the bits the implementation prints for the README sentence *)
 Example C10_nonvacuous : fbits (FDiv (FOfInt (-73421920)) 600000) = 3270819167%Z.
